@@ -328,6 +328,18 @@ func TestC19(t *testing.T) {
 		cases = append(cases, tc{noHome: true, name: "allow-write via " + ch + " without HOME", setting: "allow-write", expect: "A", assigns: []c19Assign{{ch, "allow-write", "A"}}})
 		cases = append(cases, tc{noHome: true, name: "client-whitelist malformed via " + ch + " without HOME", setting: "client-whitelist", bad: true, assigns: []c19Assign{{ch, "client-whitelist", "not-an-address"}}})
 	}
+	// two configuration files present at once, each carrying a different setting: both must have their effect
+	filePairs := [][2]string{{"userini", "cwdini"}, {"cwdini", "configenv"}, {"userini", "configflag"}, {"configenv", "userini"}, {"configflag", "cwdini"}}
+	twoSettings := [][2]string{{"allow-write", "json-log"}, {"client-whitelist", "allow-write"}, {"max-clients", "debug"}, {"root", "allow-write"}}
+	for _, fp := range filePairs {
+		for _, ts := range twoSettings {
+			for oi, obs := range []string{ts[0], ts[1]} {
+				cases = append(cases, tc{name: sprintf("%s in %s and %s in %s (observing %s)", ts[0], fp[0], ts[1], fp[1], obs), setting: obs, expect: "A",
+					assigns: []c19Assign{{fp[0], ts[0], "A"}, {fp[1], ts[1], "A"}}})
+				_ = oi
+			}
+		}
+	}
 	// every pair of settings given together (flags): each must still have its own effect (wiring interactions,
 	// e.g. whitelist + client limit)
 	for i, s1 := range c19Settings {
